@@ -7,7 +7,7 @@ crun P <nNames> name* <nRecs> rec* <nTriples> (name type class)* OPS <nOps> op*
 op := D now <n> rec* <nreact> (phase lid kind target)*      -- response datagram; kind 1 = add listener, 0 = remove
     | X now                                                 -- periodic purge (_async_cache_cleanup)
     | LA id | LR id                                         -- add / remove a recording listener
-    | BA id tPurge tReplay <n> type*                        -- new browser (purge at tPurge, initial replay at tReplay)
+    | BA id now <n> type*                                   -- new browser (purge, then initial replay, both at `now`)
     | BR id                                                 -- cancel browser
 ```
 Output: one observation per op, joined by ` | `.  See `harness/cachecommon.py` for the mirror image. -/
@@ -53,7 +53,7 @@ inductive Op where
   | dg (now : Ms) (recs : List Rec) (reacts : List React)
   | purge (now : Ms)
   | lAdd (id : Nat) | lRem (id : Nat)
-  | bAdd (id : Nat) (tPurge tReplay : Ms) (types : List String)
+  | bAdd (id : Nat) (now : Ms) (types : List String)
   | bRem (id : Nat)
 
 def parseReact : Tok React := do
@@ -67,7 +67,7 @@ def parseOp : Tok Op := do
   | "X" => do let now ← Tok.int; pure (.purge now)
   | "LA" => do let i ← Tok.nat; pure (.lAdd i)
   | "LR" => do let i ← Tok.nat; pure (.lRem i)
-  | "BA" => do let i ← Tok.nat; let tp ← Tok.int; let tr ← Tok.int; let ts ← Tok.list Tok.str; pure (.bAdd i tp tr ts)
+  | "BA" => do let i ← Tok.nat; let now ← Tok.int; let ts ← Tok.list Tok.str; pure (.bAdd i now ts)
   | "BR" => do let i ← Tok.nat; pure (.bRem i)
   | _ => failure
 
@@ -153,10 +153,10 @@ def step (p : Probes) (h : Host) (op : Op) : Host × String :=
     match applyAct Gen.Cache.remove_listener_catches_keyerror h.listeners (.remove i) with
     | .ok ls => ({ h with listeners := ls }, s!"LR {idsStr ls}")
     | .error e => (h, s!"LR err={e.name}")
-  | .bAdd i tp tr types =>
+  | .bAdd i now types =>
     -- a browser with this id is replaced: the old one is cancelled first
     let h := { h with browsers := h.browsers.filter (fun ib => ib.1 != i) }
-    match Browser.create l possibleTypes h.cache tp tr types with
+    match Browser.create l possibleTypes h.cache now types with
     | .error e => (h, s!"BA err={e.name}")
     | .ok o =>
       if o.purged.isEmpty then
@@ -165,7 +165,7 @@ def step (p : Probes) (h : Host) (op : Op) : Host × String :=
       else
         -- the purge round goes to the listeners and browsers registered before
         let us := o.purged.map (fun r => (r, some r))
-        let bs := browsersUpdate h o.cache (Gen.Cache.add_listener_purge_updates_now tp) us
+        let bs := browsersUpdate h o.cache (Gen.Cache.add_listener_purge_updates_now now) us
         let (bs', cbs) := browsersComplete bs
         ({ h with cache := o.cache, browsers := bs' ++ [(i, o.browser)] },
           s!"BA u={pairsStr us} c1={idsStr h.listeners} c2={idsStr h.listeners} cb={cbStr (cbs ++ o.callbacks.map (fun cb => (i, cb)))}")
